@@ -147,6 +147,113 @@ def rule_mode(repo, rid, modules, exempt):
     return res
 
 
+def _root_name(e):
+    """the name an expression hangs on: x[..].f(..).g -> x"""
+    while True:
+        if isinstance(e, (ast.Attribute, ast.Subscript, ast.Starred)):
+            e = e.value
+        elif isinstance(e, ast.Call) and isinstance(e.func, ast.Attribute) and not (dotted(e.func) or '').startswith(('torch.', 'math.', 'np.')):
+            e = e.func.value
+        else:
+            return e.id if isinstance(e, ast.Name) else None
+
+
+def cross_casts(fnode):
+    """[(call, X root, Y root)] : a tensor that hangs on parameter X is converted to the dtype of parameter Y (X.to(Y), X.type_as(Y), X.to(Y.dtype),
+    X.to(dtype=Y.dtype), X.type(Y.dtype)).  Boolean masks (comparisons) being widened are not casts of data."""
+    params = {a.arg for a in fnode.args.posonlyargs + fnode.args.args + fnode.args.kwonlyargs} - {'self', 'cls'}
+    # one step of local aliasing: name -> parameter it hangs on (only when assigned once from an expression on one parameter, no comparison inside)
+    alias = {}
+    for n in _own_nodes(fnode):
+        if isinstance(n, ast.Assign) and len(n.targets) == 1 and isinstance(n.targets[0], ast.Name) and n.targets[0].id not in params:
+            r = _root_name(n.value)
+            if r in params and not any(isinstance(x, ast.Compare) for x in ast.walk(n.value)):
+                alias.setdefault(n.targets[0].id, set()).add(r)
+            else:
+                alias.setdefault(n.targets[0].id, set()).add(None)
+    def par(e):
+        r = _root_name(e)
+        if r in params:
+            return r
+        a = alias.get(r)
+        return next(iter(a)) if a and len(a) == 1 else None
+    out = []
+    for n in _own_nodes(fnode):
+        if not (isinstance(n, ast.Call) and isinstance(n.func, ast.Attribute) and n.func.attr in ('to', 'type_as', 'type')):
+            continue
+        x = n.func.value
+        if any(isinstance(c, ast.Compare) for c in ast.walk(x)):
+            continue
+        xr = par(x)
+        if xr is None:
+            continue
+        targets = list(n.args) + [k.value for k in n.keywords if k.arg in ('dtype', 'other', None)]
+        for t in targets:
+            if isinstance(t, ast.Attribute) and t.attr == 'device':
+                continue
+            if isinstance(t, ast.Attribute) and t.attr == 'dtype':
+                yr = par(t.value)
+            elif n.func.attr in ('to', 'type_as') and isinstance(t, (ast.Name, ast.Subscript, ast.Attribute)) and dotted(t) not in ('dtype', 'device'):
+                yr = par(t)
+            else:
+                yr = None
+            if yr is not None and yr != xr:
+                out.append((n, xr, yr))
+    return out
+
+
+@guarded
+def rule_cast(repo, rid, modules):
+    res = RuleResult(rid, 'no argument is converted to the dtype of ANOTHER argument (X.to(Y), X.type_as(Y), X.to(Y.dtype)): torch promotes mixed operands to the '
+                     'wider type, an explicit cast to the partner silently truncates when the partner is an integer / lower-precision tensor (pixel grids, index '
+                     'tensors, float32 data with float64 calibration)', floor=1)
+    n = 0
+    for m in modules:
+        for f in repo.module(m).functions.values():
+            n += 1
+            for c, xr, yr in cross_casts(f.node):
+                res.inst({'function': f.fq, 'cast': src(c)[:60], 'of argument': xr, 'to the dtype of argument': yr}, (f.fq, src(c)[:60]))
+                res.add(Finding(rid, f, '`%s` converts the argument `%s` to the dtype of the argument `%s`: for an integer or lower-precision `%s` the values of `%s` are '
+                                'truncated before they are used (mixed operands are promoted by torch without any cast)' % (src(c)[:60], xr, yr, yr, xr), node=c))
+    res.inst({'functions scanned': n}, 'scan')
+    fx = ast.parse('def f(p, K, m):\n    K = K.to(p)\n    a = K[..., 0, 0].to(p.dtype)\n    b = (p > 0).type_as(K)\n    c = K.to(p.device)\n    d = p.to(torch.int64)\n    return a, b, c, d\n').body[0]
+    if len(cross_casts(fx)) != 2:
+        raise AnalysisError('%s: fixtures no longer classified (%d)' % (rid, len(cross_casts(fx))))
+    return res
+
+
+# library calls that look interchangeable with what the code does today but are not, with the argument that makes them safe
+API_HAZARDS = {
+    'torch.cdist': (lambda c: any(k.arg == 'compute_mode' and isinstance(k.value, ast.Constant) and k.value.value == 'donot_use_mm_for_euclid_dist' for k in c.keywords),
+                    'for p = 2 and more than 25 rows torch.cdist switches to the |a|^2 + |b|^2 - 2ab matrix-multiplication form, whose cancellation error grows with the '
+                    'squared coordinate magnitude (metres in a map frame: several units in float32): distances are not the norms of the differences any more, '
+                    'radius tests and neighbour orders change; pass compute_mode="donot_use_mm_for_euclid_dist" or keep the explicit difference'),
+}
+
+
+@guarded
+def rule_api(repo, rid, modules):
+    res = RuleResult(rid, 'no call of a library function that silently differs from the explicit computation it replaces (table API_HAZARDS: %s) without the '
+                     'argument that makes it exact' % ', '.join(sorted(API_HAZARDS)), floor=1)
+    n = 0
+    for m in modules:
+        for f in repo.module(m).functions.values():
+            n += 1
+            for c in _own_nodes(f.node):
+                if isinstance(c, ast.Call) and dotted(c.func) in API_HAZARDS:
+                    safe, why = API_HAZARDS[dotted(c.func)]
+                    ok = safe(c)
+                    res.inst({'function': f.fq, 'call': src(c)[:60], 'safe form': ok}, (f.fq, src(c)[:60]))
+                    if not ok:
+                        res.add(Finding(rid, f, '`%s`: %s' % (src(c)[:60], why), node=c))
+    res.inst({'functions scanned': n}, 'scan')
+    fx = ast.parse('def f(a, b):\n    return torch.cdist(a, b, p=2), torch.cdist(a, b, compute_mode="donot_use_mm_for_euclid_dist")\n').body[0]
+    got = [API_HAZARDS['torch.cdist'][0](c) for c in ast.walk(fx) if isinstance(c, ast.Call) and dotted(c.func) == 'torch.cdist']
+    if sorted(got) != [False, True]:
+        raise AnalysisError('%s: fixtures no longer classified' % rid)
+    return res
+
+
 # ------------------------------------------------------------------------------------------------ sites read and tabled (2026-09, HEAD e00fd9c)
 EXEMPT_DT = {
     ('pypose.function.geometry:voxel_filter', 'torch.tensor(v0, device=v1.device)'): 'voxel sizes given as a Python list: used as a divisor, type-promoted with the points',
@@ -180,4 +287,4 @@ def mode_rules(repo, pid, modules):
     from .ipalias import rule_ipalias
     from .unused import rule_unused
     return [rule_dtype_mod(repo, pid + '.DTMOD', modules, EXEMPT_DT), rule_mode(repo, pid + '.MODE', modules, EXEMPT_MODE),
-            rule_ipalias(repo, pid + '.IPA', modules), rule_unused(repo, pid + '.UNUSED', modules)]
+            rule_ipalias(repo, pid + '.IPA', modules), rule_unused(repo, pid + '.UNUSED', modules), rule_cast(repo, pid + '.CAST', modules), rule_api(repo, pid + '.API', modules)]
